@@ -21,6 +21,7 @@ import PsutilModel.Proofs.C15Ext
 import PsutilModel.Proofs.C15R2
 import PsutilModel.Proofs.C15Cost
 import PsutilModel.Proofs.C15R3
+import PsutilModel.Proofs.C15Probe
 import PsutilModel.Model.C15Gen
 namespace Psutil.C15
 open Spec
@@ -1208,5 +1209,126 @@ theorem C15_wait_procs_pass_budget (alive : List Nat) (h : alive ≠ []) :
     | cons a l => simp; positivity
   field_simp
   simp
+
+/-! ## seeded round 5 (C15-7): WHICH liveness probe the non-child poll asks, for every procfs view -/
+
+/-- proof obligation on three translator facts: the ECHILD branch of `wait_pid` is
+    `while _pid_exists(pid): …sleep…; return None`, the default of `_pid_exists` is `_psposix.pid_exists`
+    whose only call is `os.kill(pid, 0)`, and `_pslinux.Process.wait` hands `wait_pid` nothing but the pid,
+    the timeout and the name. Passing `_pid_exists=<the procfs-reading pid_exists>` (seeded C15-7), giving
+    `_psposix.pid_exists` a second opinion, or polling something else in the loop stops this building. -/
+theorem cfg_nonchild_probe : cfg.probe = .kill ∧ cfg.probeDirect = .kill := by decide
+
+/-- what a caller observes of `wait_pid(pid, timeout)` when non-children are polled with `probe` and the
+    procfs tree shows `view` -/
+def obsWaitV (probe : Probe) (env : Env) (view : View) (pid : Int) (timeout : Option Rat) (fuel : Nat)
+    (now : Rat) (nWait : Nat) : Obs :=
+  ⟨(waitPidV cfg probe env view pid timeout fuel now nWait).1,
+   (waitPidV cfg probe env view pid timeout fuel now nWait).2.now,
+   (waitPidV cfg probe env view pid timeout fuel now nWait).2.sleeps⟩
+
+/-- the wait the code makes (probe = the one the translator found) observes the same for EVERY procfs
+    view — result, return instant, every sleep — namely what the view-free model of all theorems above
+    observes: each of them holds in every world in which procfs hides or shows the process at will -/
+theorem C15_wait_any_view (env : Env) (view : View) (n : Nat) (timeout : Option Rat) (fuel : Nat) (now : Rat)
+    (nWait : Nat) :
+    obsWaitV cfg.probe env view (n : Int) timeout fuel now nWait = obsWait env n timeout fuel now nWait ∧
+    obsWaitV cfg.probeDirect env view (n : Int) timeout fuel now nWait = obsWait env n timeout fuel now nWait := by
+  rw [cfg_nonchild_probe.1, cfg_nonchild_probe.2]
+  simp [obsWaitV, obsWait, waitPidV_kill, waitPidI_nat cfg_pid_test.1 cfg_pid_test.2.2]
+
+/-- never early, for every procfs view: a result comes only once the process has REALLY ended (kernel's
+    table), in particular never while it is alive but not listed (hidepid, `PROCFS_PATH` elsewhere) -/
+theorem C15_never_early_any_view (env : Env) (view : View) (n : Nat) (timeout : Option Rat) (fuel : Nat)
+    (now : Rat) (nWait : Nat) :
+    neverEarly ⟨env, n, timeout, now⟩ (obsWaitV cfg.probe env view (n : Int) timeout fuel now nWait) ∧
+    noResultWhileHidden ⟨env, n, timeout, now⟩ view
+      (obsWaitV cfg.probe env view (n : Int) timeout fuel now nWait) := by
+  rw [(C15_wait_any_view env view n timeout fuel now nWait).1]
+  have h := C15_never_early env n timeout fuel now nWait
+  refine ⟨h, ?_⟩
+  unfold noResultWhileHidden hiddenAlive
+  unfold neverEarly at h
+  split
+  · rename_i cc hc; rw [hc] at h; exact fun hh => hh.1 h.2
+  · rename_i hc; rw [hc] at h; exact fun hh => hh.1 h.2
+  · trivial
+
+/-- `Process.wait` and `Popen.wait`, for every view: the calls of the view-free model -/
+theorem C15_process_wait_any_view (env : Env) (view : View) (timeout : Option Rat) (fuel : Nat) (now : Rat)
+    (p : PObj) (q : PopenObj) :
+    procWaitV cfg cfg.probe env view timeout fuel now p = procWait cfg env timeout fuel now p ∧
+    popenWaitV cfg cfg.probe env view timeout fuel now q = popenWait cfg env timeout fuel now q := by
+  rw [cfg_nonchild_probe.1]
+  exact ⟨by rw [procWaitV_kill, procWaitI_eq cfg_pid_test.1 cfg_pid_test.2.2],
+    popenWaitV_kill cfg_pid_test.1 cfg_pid_test.2.2 env view timeout fuel now q⟩
+
+/-- the situation of seeded C15-7: some other process that does not end, whatever the procfs tree shows
+    of it (not listed at all, listed and then hidden, …): `wait` can only time out — never None -/
+theorem C15_hidden_alive_only_times_out (env : Env) (view : View) (n : Nat) (timeout : Option Rat) (fuel : Nat)
+    (now : Rat) (nWait : Nat) :
+    selfWait ⟨env, n, timeout, now⟩ (obsWaitV cfg.probe env view (n : Int) timeout fuel now nWait) := by
+  rw [(C15_wait_any_view env view n timeout fuel now nWait).1]
+  exact C15_wait_self env n timeout fuel now nWait
+
+/-- one `check_gone` of `wait_procs`, for every assignment of procfs views to the processes: from any state
+    satisfying the loop invariant (every cached exit code is a true one — `Fresh` states do, and every
+    `check_gone` keeps it: `checkGone_step`) the step is the step of the view-free model, although
+    `proc.is_running()` reads procfs: it is asked only after `wait()` returned None, when the kernel says
+    the process is gone, and no view lists what the kernel does not have. The loops of `wait_procs` call
+    nothing but `check_gone` (obligation `cfg_wait_procs_shape`). -/
+theorem C15_check_gone_any_view (envOf : Nat → Env) (viewOf : Nat → View) (hasCb : Bool) (fuel : Nat)
+    (input : List Nat) (w : WP) (pid : Nat) (t : Rat) (ht : 0 ≤ t) (hi : Inv envOf hasCb input w) :
+    checkGoneV cfg cfg.probe envOf viewOf hasCb fuel w pid t = checkGone cfg envOf hasCb fuel w pid t := by
+  rw [cfg_nonchild_probe.1]
+  exact checkGoneV_kill cfg_good cfg_pid_test.1 cfg_pid_test.2.2 envOf viewOf hasCb fuel input w pid t ht hi
+
+/-- the whole `wait_procs`, for every assignment of procfs views and every set-iteration order: from a
+    fresh state the run — both lists, every returncode, callback log, return instant, every sleep — IS the
+    run of the view-free model, so partition / callback once / returncode / gone-really-ended / deadline /
+    alive-really-running hold whatever procfs hides; in particular no process is reported gone while it
+    is alive but not listed -/
+theorem C15_wait_procs_any_view (envOf : Nat → Env) (viewOf : Nat → View) (procs : List Nat)
+    (timeout : Option Rat) (hasCb : Bool) (order : Nat → List Nat → List Nat) (fuel : Nat) (w w' : WP)
+    (alive' : List Nat) (hperm : ∀ k l, (order k l).Perm l) (hf : Fresh envOf w) :
+    waitProcsV cfg cfg.probe envOf viewOf procs timeout hasCb order fuel w =
+      waitProcs cfg envOf procs timeout hasCb order fuel w ∧
+    (waitProcsV cfg cfg.probe envOf viewOf procs timeout hasCb order fuel w = .ok (w', alive') →
+      goneEnded ⟨envOf, procs, timeout, w.now, hasCb⟩ (obsProcs w' alive') ∧
+      noGoneWhileHidden ⟨envOf, procs, timeout, w.now, hasCb⟩ viewOf (obsProcs w' alive')) := by
+  have e : waitProcsV cfg cfg.probe envOf viewOf procs timeout hasCb order fuel w =
+      waitProcs cfg envOf procs timeout hasCb order fuel w := by
+    rw [cfg_nonchild_probe.1]
+    exact waitProcsV_kill cfg_good cfg_pid_test.1 cfg_pid_test.2.2 envOf viewOf hasCb fuel order hperm procs
+      timeout w hf
+  refine ⟨e, fun h => ?_⟩
+  rw [e] at h
+  have hge := C15_wait_procs_gone_ended envOf procs timeout hasCb order fuel w w' alive' hperm hf h
+  exact ⟨hge, fun pid hp hh => hh.1 (hge pid hp)⟩
+
+/-- the full statement over the probe as well: whichever question the poll asks, never early -/
+def C15_never_early_any_probe_Full : Prop :=
+  ∀ (probe : Probe) (env : Env) (view : View) (n : Nat) (timeout : Option Rat) (fuel : Nat) (now : Rat)
+    (nWait : Nat),
+    neverEarly ⟨env, n, timeout, now⟩ (obsWaitV probe env view (n : Int) timeout fuel now nWait)
+
+/-- … is FALSE: a poll that asks the procfs view (what seeded C15-7 makes `Process.wait` do) answers None
+    at once for a live process the view does not list. This is why `cfg_nonchild_probe` is an obligation. -/
+theorem C15_never_early_procfs_probe_counterexample : ¬ C15_never_early_any_probe_Full := by
+  intro h
+  have h1 := h .procfs hiddenEnv hiddenView 8 (some 0) 1 0 0
+  have h2 := (hidden_run cfg cfg_pid_test.2.2).1
+  unfold neverEarly obsWaitV at h1
+  simp only [Nat.cast_ofNat] at h1
+  rw [h2] at h1
+  simp [endedBy, hiddenEnv] at h1
+
+/-- non-vacuity: the witness is a process that is alive but hidden at the instant None came back -/
+example : hiddenAlive hiddenEnv hiddenView 0 := by
+  simp [hiddenAlive, endedBy, hiddenEnv, hiddenView]
+
+example : View.window 1 (some 2) (1 / 2) = true ∧ View.window 1 (some 2) 1 = false ∧
+    View.window 1 (some 2) 2 = true ∧ View.window 1 none 5 = false := by
+  norm_num [View.window]
 
 end Psutil.C15
